@@ -82,7 +82,7 @@ def _calls(node, name):
             ((isinstance(n.func, ast.Name) and n.func.id == name) or (isinstance(n.func, ast.Attribute) and n.func.attr == name))]
 
 
-def params():
+def _params_from_ast():
     from common import runner
     R = runner.REPO
 
@@ -156,6 +156,51 @@ def params():
         bypass = True
     else:
         raise runner.TranslateError("_ConnectedClientAPI.aclose: unrecognised fallback")
+    return (closing_first, catches_base, client_fallback, bypass)
+
+
+PARAMS_SOURCE = "not computed"
+
+
+def _params_from_behaviour():
+    """The four switches read off the REAL code with scripted outcomes (no assumption on how the code is written):
+      closing_flag_first          is_closing() of the TLS transport at the first suspension point of its aclose()
+      unwrap_handler_catches_base the leaf is closed when aclose() is cancelled at the first suspension of unwrap()
+      client_forced_fallback      the leaf is closed when client.aclose() is cancelled waiting for a held send lock
+      api_fallback_bypasses_guard same for the server-side client API (the sender also holds the send guard)"""
+    tls = [1, [1, 2, 0], [0, 0, 1]]
+    leaf = [0, [0, 0, 1]]
+    info = {}
+    run_case([0, tls, 0, [], 0], info=info)
+    at_points = info.get("closing_at_points") or []
+    if not at_points:
+        from common import runner
+        raise runner.TranslateError("behavioural probe: TLS aclose() reached no suspension point")
+    closing_first = bool(at_points[0])
+    catches_base = bool(run_case([0, tls, 0, [2], 0])[1][0])
+    client_fallback = bool(run_case([4, leaf, 1, [2], 0])[1][0])
+    bypass = bool(run_case([5, leaf, 1, [2], 0])[1][0])
+    return (closing_first, catches_base, client_fallback, bypass)
+
+
+def params():
+    """AST translation first (it also pins the SHAPE the model transcribes); when the source is written in a shape
+    outside the recognised fragment, the switches are extracted behaviourally instead of failing closed.  When both
+    are available they must agree."""
+    global PARAMS_SOURCE
+    from common import runner
+    beh = _params_from_behaviour()
+    try:
+        vals = _params_from_ast()
+        PARAMS_SOURCE = "ast (cross-checked with behavioural probes)"
+        if vals != beh:
+            raise runner.TranslateError(f"AST translation {vals} and behavioural probes {beh} disagree")
+    except runner.TranslateError as exc:
+        if "disagree" in str(exc):
+            raise
+        vals = beh
+        PARAMS_SOURCE = f"behavioural probes (AST shape not recognised: {exc})"
+    closing_first, catches_base, client_fallback, bypass = vals
     b = lambda v: "true" if v else "false"
     return (f"Definition closing_flag_first : bool := {b(closing_first)}.\n"
             f"Definition unwrap_handler_catches_base : bool := {b(catches_base)}.\n"
@@ -477,6 +522,7 @@ def run_case(inp, trace=None, cancel_at=None, info=None):
         lower = bt.result()
 
         counter = [0]
+        holder_closing = [lambda: False]
 
         def drive(task, is_main=True):
             """Run until the task is done, resolving each suspension point with the next label."""
@@ -526,6 +572,8 @@ def run_case(inp, trace=None, cancel_at=None, info=None):
                 world.used += 1
                 if trace is not None:
                     trace.append(lab)
+                if info is not None and is_main:
+                    info.setdefault("closing_at_points", []).append(bool(holder_closing[0]()))
                 if lab == 2:
                     task.cancel()
                 elif lab == 3 and sp.next_timer() is not None:
@@ -664,6 +712,7 @@ def run_case(inp, trace=None, cancel_at=None, info=None):
             sp.quiesce()
             assert world.sender_fut not in (None, "arm"), "sender did not suspend"
         world.scripting = True
+        holder_closing[0] = obj_is_closing
         task = loop.create_task(closer())
         exc = drive(task)
         if info is not None:
@@ -859,4 +908,4 @@ def extra(ctx):
                     ctx.problems.append(dict(kind="correspondence",
                                              detail=f"cancel sweep path={path} d={d}: leaf left open, result {out[0]}",
                                              input=sx.to_text(inp + [d])))
-    return dict(cancel_sweep_runs=runs, cancel_sweep_failures=bad)
+    return dict(cancel_sweep_runs=runs, cancel_sweep_failures=bad, params_source=PARAMS_SOURCE)
